@@ -269,6 +269,7 @@ func runC07(t *testing.T, spec *hutil.Spec, out *hutil.Out) {
 			if out.OverBudget() {
 				return
 			}
+			out.Progress(f.Name())
 			r := &c07run{file: f, conf: map[string]any{"type": formatType[format], "file": "/ammo", "passes": 3}}
 			v, complete := rn.explore(0, r.scenario)
 			out.Cells++
